@@ -59,7 +59,8 @@ func errReply(label string) []byte {
 
 // HarnessC07: a split MGET / DEL / MSET whose fragments are answered in a solver-chosen order.
 //   kind: 0 mget 1 del 2 mset ; k keys ; errs: 0 = no backend errors (C07), 1 = any fragment may be
-//   answered with an error (C11), 2 = no errors, values null or one byte, replies in one read (longer key lists)
+//   answered with an error (C11), 2 = no errors, values null or one byte, replies in one read (longer key lists),
+//   3 = as 2 and the REQUEST arrives in two reads, cut at any position
 func HarnessC07(kind, k, errs int) {
 	w, _ := verifWorld2(core.VerifDefaultOptions())
 	c := w.NewClient("10.0.0.1:5000")
@@ -68,12 +69,25 @@ func HarnessC07(kind, k, errs int) {
 	keys := make([][]byte, k)
 	for i := range keys {
 		keys[i], _ = vKeyOn("key")
+		if errs == 3 {
+			keys[i][3] = byte('x' + i%2) // the cut position is the subject here; key bytes are ordinary (and repeat from the third key on)
+		}
 		args = append(args, keys[i])
 		if kind == 2 {
 			args = append(args, []byte{verifrt.Byte("val")})
 		}
 	}
-	w.Feed(c, core.VerifEncode(args...))
+	if errs == 3 {
+		// the request arrives in two reads, cut at a position chosen by the solver
+		req := core.VerifEncode(args...)
+		cut := verifrt.Concretize(verifrt.Int("request_cut", 1, len(req)-1))
+		w.Feed(c, req[:cut])
+		w.RunTasks()
+		verifrt.Assert(len(w.Servers) == 0 && len(w.Sent(c)) == 0 && c.Opened(), "prefix_of_request_not_acted_on")
+		w.Feed(c, req[cut:])
+	} else {
+		w.Feed(c, core.VerifEncode(args...))
+	}
 	w.RunTasks()
 	verifrt.Assert(len(w.Sent(c)) == 0, "nothing_before_backends_answer")
 
@@ -115,8 +129,11 @@ func HarnessC07(kind, k, errs int) {
 							v = fa.vals[jj]
 						}
 					}
+					if v == nil && errs == 3 {
+						v = bulk([]byte{byte('p' + j), verifrt.Byte("v")})
+					}
 					if v == nil {
-						v = vValue("v", errs == 2)
+						v = vValue("v", errs >= 2)
 					}
 					fa.vals = append(fa.vals, v)
 					fa.answer = append(fa.answer, v...)
@@ -143,7 +160,7 @@ func HarnessC07(kind, k, errs int) {
 		fa := frags[oi]
 		// the reply may arrive in two reads
 		cut := 0
-		if errs != 2 {
+		if errs < 2 {
 			cut = verifrt.Choice("cut", 2)
 		}
 		if cut == 1 && len(fa.answer) > 3 {
@@ -217,7 +234,44 @@ func HarnessC11Single() {
 	verifrt.Cover("end", true)
 }
 
+// HarnessC11Seq: n single-key requests one after the other, EVERY one answered by the node with the same
+// arbitrary error reply (so runs of -LOADING, -MASTERDOWN, -ERR ... of any length up to n occur): each
+// error reaches the client verbatim, once, and afterwards the connection still serves a normal request.
+// Whatever the proxy counts or remembers per backend connection meets the next error.
+func HarnessC11Seq(n int) {
+	w, _ := verifWorld2(core.VerifDefaultOptions())
+	c := w.NewClient("10.0.0.1:5000")
+	e := errReply("err")
+	seen := map[*core.VerifConn]int{}
+	var want []byte
+	for i := 0; i <= n; i++ {
+		k := []byte{'{', 'b', '}', byte('0' + i%10), 'x'}
+		w.Feed(c, core.VerifEncode([]byte("get"), k))
+		w.RunTasks()
+		var target *core.VerifConn
+		for _, s := range w.SortedServers() {
+			if got := len(w.Sent(s)); got > seen[s] {
+				seen[s] = got
+				target = s
+			}
+		}
+		verifrt.Assert(target != nil && target.Opened(), "request_forwarded")
+		rsp := e
+		if i == n {
+			rsp = []byte("$1\r\nz\r\n")
+		}
+		w.Feed(target, rsp)
+		want = append(want, rsp...)
+		out := w.Sent(c)
+		verifrt.Assert(len(out) == len(want) && isPrefix(out, want), "error_delivered_verbatim_every_time")
+		verifrt.Assert(!w.Shutdown && c.Opened(), "proxy_and_client_stay_up")
+	}
+	verifrt.ObserveBytes("client", w.Sent(c))
+	verifrt.Cover("end", true)
+}
+
 func init() {
+	verifrt.Register("HarnessC11Seq", func(p []int64) { HarnessC11Seq(int(p[0])) })
 	verifrt.Register("HarnessC07", func(p []int64) { HarnessC07(int(p[0]), int(p[1]), int(p[2])) })
 	verifrt.Register("HarnessC11Single", func(p []int64) { HarnessC11Single() })
 }
